@@ -2667,6 +2667,136 @@ func lemmaForwardSession(raw *rawEnvelope) (e *Session, e3 *Session, accepted bo
 //@   ensures [C04,C14] @paired inprocPair(client) && inprocPair(server) && client.remote == server && !client.closed && !server.closed
 
 // ---------------------------------------------------------------------------
+// WebSocket transport: the implementation behind the Transport model. One
+// WriteJSON of the envelope per Send and one ReadJSON + one toEnvelope per
+// Receive (C04: nothing duplicated or invented; C01: the receive path ends in
+// the same (*rawEnvelope).toEnvelope as the typed decoders), fixed options (C09).
+// ---------------------------------------------------------------------------
+
+//@ func (*websocketTransport).ensureOpen
+//@   props C01 C04 C14
+//@   requires t != nil
+//@   modifies nothing
+//@   ensures (result == nil) == (t.conn != nil)
+
+//@ func (*websocketTransport).Connected
+//@   props C04 C14
+//@   requires t != nil
+//@   modifies nothing
+//@   ensures result == (t.conn != nil)
+
+//@ func (*websocketTransport).Send$1
+//@   props C04
+//@   requires t != nil && t.conn != nil && errChan != nil
+//@   modifies nothing
+//@   oncall [C04] (*github.com/gorilla/websocket.Conn).WriteJSON : a_v == e
+//@   checks [C04] @onewrite ncalls("(*github.com/gorilla/websocket.Conn).WriteJSON") == 1 && nsent(local.errChan) == 1
+
+//@ func (*websocketTransport).Send
+//@   props C04
+//@   requires t != nil
+//@   panics only-if ctx == nil || e == nil || payloadnil(e)
+//@   modifies nothing
+//@   checks [C04] @onewriter t.conn != nil ==> ngo("(*websocketTransport).Send$1") == 1
+//@   checks [C04] @nowriterwhenclosed t.conn == nil ==> ngo("(*websocketTransport).Send$1") == 0
+//@   ensures [C04] @notopen t.conn == nil ==> result != nil
+//@   ensures [C04] @stillopen result == nil ==> t.conn != nil
+
+//@ func (*websocketTransport).Receive$1
+//@   props C01 C04
+//@   requires t != nil && t.conn != nil && rawChan != nil && errChan != nil
+//@   modifies nothing
+//@   checks [C04] @oneread ncalls("(*github.com/gorilla/websocket.Conn).ReadJSON[*rawEnvelope]") == 1 && nsent(local.rawChan) + nsent(local.errChan) == 1
+//@   checks [C04] @rawonlyonsuccess (nsent(local.rawChan) == 1) == (nerr("(*github.com/gorilla/websocket.Conn).ReadJSON[*rawEnvelope]") == 0)
+
+//@ func (*websocketTransport).Receive
+//@   props C01 C04
+//@   requires t != nil
+//@   panics only-if ctx == nil
+//@   modifies nothing
+//@   checks [C04] @onereader t.conn != nil ==> ngo("(*websocketTransport).Receive$1") == 1
+//@   checks [C04] @noreaderwhenclosed t.conn == nil ==> ngo("(*websocketTransport).Receive$1") == 0
+//@   checks [C01,C04] @decodedonce result1 == nil ==> ncalls("(*rawEnvelope).toEnvelope") == 1 && nrecv(local.rawChan) == 1
+//@   ensures [C01] @kinds result1 == nil ==> result0 != nil && !payloadnil(result0) && isKind(result0)
+//@   ensures [C04] @notopen t.conn == nil ==> result1 != nil
+//@   ensures [C04] @stillopen result1 == nil ==> t.conn != nil
+
+//@ func (*websocketTransport).Close
+//@   props C14
+//@   requires t != nil
+//@   modifies t.conn
+//@   ensures [C14] @released t.conn == nil
+
+//@ func (*websocketTransport).Encryption
+//@   props C09
+//@   requires t != nil
+//@   modifies nothing
+//@   ensures result == t.e
+//@ func (*websocketTransport).SupportedEncryption
+//@   props C09
+//@   requires t != nil
+//@   modifies nothing
+//@   ensures [C09] fresh(result) && len(result) == 1 && result[0] == t.e
+//@ func (*websocketTransport).SetEncryption
+//@   props C09
+//@   requires t != nil
+//@   modifies nothing
+//@   ensures [C09] @inforce (result == nil) == (e == t.e)
+//@ func (*websocketTransport).Compression
+//@   props C09
+//@   requires t != nil
+//@   modifies nothing
+//@   ensures result == t.c
+//@ func (*websocketTransport).SupportedCompression
+//@   props C09
+//@   requires t != nil
+//@   modifies nothing
+//@   ensures [C09] fresh(result) && len(result) == 1 && result[0] == t.c
+//@ func (*websocketTransport).SetCompression
+//@   props C09
+//@   requires t != nil
+//@   modifies nothing
+//@   ensures [C09] @inforce (result == nil) == (c == t.c)
+
+// The options of the other two transports (C09: what the connection supports)
+//@ func (*tcpTransport).Compression
+//@   props C09
+//@   modifies nothing
+//@   ensures result == SessionCompressionNone
+//@ func (*tcpTransport).SupportedCompression
+//@   props C09
+//@   modifies nothing
+//@   ensures [C09] fresh(result) && len(result) == 1 && result[0] == SessionCompressionNone
+//@ func (*tcpTransport).SetCompression
+//@   props C09
+//@   modifies nothing
+//@   ensures [C09] result != nil
+//@ func (*inProcessTransport).Encryption
+//@   props C09
+//@   modifies nothing
+//@   ensures result == SessionEncryptionNone
+//@ func (*inProcessTransport).SupportedEncryption
+//@   props C09
+//@   modifies nothing
+//@   ensures [C09] fresh(result) && len(result) == 1 && result[0] == SessionEncryptionNone
+//@ func (*inProcessTransport).SetEncryption
+//@   props C09
+//@   modifies nothing
+//@   ensures [C09] result != nil
+//@ func (*inProcessTransport).Compression
+//@   props C09
+//@   modifies nothing
+//@   ensures result == SessionCompressionNone
+//@ func (*inProcessTransport).SupportedCompression
+//@   props C09
+//@   modifies nothing
+//@   ensures [C09] fresh(result) && len(result) == 1 && result[0] == SessionCompressionNone
+//@ func (*inProcessTransport).SetCompression
+//@   props C09
+//@   modifies nothing
+//@   ensures [C09] result != nil
+
+// ---------------------------------------------------------------------------
 // C17 - handlers see their own session; listen (dispatch loop): C04 C06 C17 C20
 // ---------------------------------------------------------------------------
 
